@@ -109,6 +109,22 @@ Theorem C10_copy_or_grant_safe : forall gg l s total src num elsz ret fp,
 Proof. exact copy_or_grant_safe. Qed.
 Print Assumptions C10_copy_or_grant_safe.
 
+(* a back end that can grant / deny access is handed a buffer only after the range check: every buffer it is asked to
+   transfer lies wholly inside one sandbox or wholly outside all of them *)
+Theorem C10_granted_buffer_checked : forall l s total src num elsz succ mret fp,
+  world_ok l -> (forall r, In r l -> w64 (num * elsz) <= rsize r) ->
+  0 < w64 (num * elsz) -> 0 <= src -> src + w64 (num * elsz) <= M64 ->
+  grant_or_copy g l s total src num elsz succ mret = Ok (true, fp) ->
+  range_good l src (w64 (num * elsz)) = true.
+Proof. exact (granted_range_good g). Qed.
+Theorem C10_denied_buffer_checked : forall l src num elsz succ fp,
+  world_ok l -> (forall r, In r l -> w64 (num * elsz) <= rsize r) ->
+  0 < w64 (num * elsz) -> 0 <= src -> src + w64 (num * elsz) <= M64 ->
+  deny_or_copy g l src num elsz succ = Ok (true, fp) ->
+  range_good l src (w64 (num * elsz)) = true.
+Proof. exact (denied_range_good g). Qed.
+Print Assumptions C10_granted_buffer_checked.
+
 Theorem C10_code_is_guarded : g = true.
 Proof. reflexivity. Qed.
 
